@@ -55,7 +55,7 @@ def do_replay(mod, pid, tier, path):
         rc = mod.run(rec.get("tier", tier), None)
     out = buf.getvalue()
     still = [l for l in out.splitlines() if l.strip().startswith("violated: " + str(key))]
-    ev = json.load(open(os.path.join(mir.VERIF, "evidence", "%s.json" % pid)))
+    ev = json.load(open(os.path.join(common.EVID_DIR, "%s.json" % pid)))
     for o in ev["coverage"].get("samples", []):
         if not o.get("ok") and (rec.get("rule") == o.get("rule")) and rec.get("msg") == o.get("what"):
             print("  where : %s" % o.get("where"))
